@@ -226,7 +226,7 @@ class IO(Formatter):
         """
         Formats the given string.
         """
-        return self._output.formatter.format(string, style=style)
+        return self._output.format(string, style=style)
 
     def remove_format(self, string):  # type: (str) -> str
         """
